@@ -2,7 +2,7 @@
 import os
 
 from . import core
-from .rules import stdio, cert, mark, exact, optstore, inval
+from .rules import stdio, cert, mark, exact, optstore, inval, idx, atomic
 from .effects import Effects
 
 FIX = os.path.join(os.path.dirname(os.path.abspath(__file__)), "fixtures")
@@ -62,7 +62,22 @@ def fx_inval():
     return out
 
 
+def fx_idx():
+    prog = core.build_fixture([os.path.join(FIX, "idx.c")])
+    inval.ALL_NONSTATIC_PUBLIC = True
+    try:
+        r = idx.run(prog)
+        got = sorted(set(v.key.split("|")[0] + ":" + v.key.split("via ")[-1] if "via " in v.key else v.key.split("|")[0] for v in r.violations))
+        want = sorted(["lib_offbyone:QSix_offbyone", "lib_wrongdim:QSix_wrongdim", "lib_logonly:QSix_logonly",
+                       "lib_noguard:QSix_caller_noguard", "lib_list:QSix_list_bad", "QSix_swallow", "lib_logonly"])
+        return [("R-IDX fires exactly on off-by-one, wrong dimension, log-only guard, unguarded caller, half-validated list, swallowed rejection",
+                 got == want, str(got))]
+    finally:
+        inval.ALL_NONSTATIC_PUBLIC = False
+
+
 FIXTURES = {
+    "C07": [fx_idx],
     "C05": [fx_inval],
     "C01": [fx_cert],
     "C02": [fx_cert],
@@ -185,6 +200,29 @@ PROPS = {
                       "exemptions QSfree_prob, QSopt_strongbranch",
         "not_decided": "that a warm re-solve equals a from-scratch solve (numerical); decisions taken inside ILLlib_delrows about "
                        "which deletions keep the basis/cache valid; history-dependent lifetime of pricing-norm arrays",
+    },
+    "C07": {
+        "rules": [lambda prog, tier: idx.run(prog), lambda prog, tier: atomic.run(prog)],
+        "technique": "interprocedural taint of API index/selector arguments + path-sensitive must-analysis of range-guard facts "
+                     "(right dimension, right strictness) on clang::CFG with callee preconditions propagated to the API boundary and "
+                     "call-site specialisation on constant selectors; write-before-rejection analysis over effect summaries",
+        "explanation": "Decides two clauses of C07 on all paths: (R-IDX) every externally supplied row/column index (scalar or list element) "
+                       "that reaches a subscript of a problem array, in the API function or any callee, has been compared >= 0 and < the "
+                       "count of the right dimension class (row / structural / internal column) on the path, the facts travelling only "
+                       "along the passing edge, and an index found out of range cannot end in return code 0; (R-ATOMIC) no observable "
+                       "write to LP data, basis or cached solution precedes an argument-dependent rejection (own check or rejecting callee), "
+                       "except rejections of inputs validated before the first write.",
+        "level_text": "All-paths structural guarantee for index validation and reject-before-write over every public mpq_QS* entry point. "
+                      "Found thirteen genuine defects on the pinned tree (seven out-of-bounds accesses confirmed under ASan, one accepted "
+                      "garbage column index, three partial applications, one basis destroyed by a rejected load), eleven fixed in /repo, three "
+                      "recorded as known findings (ILLlib_addcol / addcols / addrows: name registration and partial list application before "
+                      "validation; need roll-back).",
+        "level_note": "trusted: dimension table in sa/rules/idx.py (array field -> row/struct/col), nstruct <= ncols, validation loops are "
+                      "full scans of the list they test, count getters recognised by their return expression; for R-ATOMIC the notion of "
+                      "'observable write' (first ILLlpdata field in D, basis arrays, cache; append slots, realloc growth and lazy "
+                      "symbol-table indices excluded) and 'validated before the first write' (some check on the same argument passed)",
+        "not_decided": "duplicate-name handling beyond 'the lookup result is tested before any write'; that QSload_basis_array validates "
+                       "the number of basic variables at all (it never rejects); sanitizer-visible effects in general",
     },
     "C20": {
         "rules": [lambda prog, tier: stdio.run(prog)],
